@@ -231,6 +231,9 @@ def run(ctx):
         if isinstance(r.value, ast.Name) and r.value.id in cls_defs and any(
                 p and t == r.value.id for t, p in fact_texts(r, isg)):
             continue
+        # the answer of the last classifier that is asked on this path, handed on as it is
+        if isinstance(r.value, ast.Call) and (call_name(r.value) or '').startswith('is_'):
+            continue
         ok_rets = False
     ctx.ob('C01.R3', 'is_group:returns-first-match', ok_rets,
            'is_group returns the first classifier result that is not None', gmod, isg)
